@@ -81,6 +81,70 @@ def run(tier, vd):
     r6["viol"] = [v for v in res6["viol"] if v["rule"] in ("Q1", "Q2", "PANIC")]
     report_viols(vd, "C13", r6, {"world": "frag", "seed": sd}, lambda v: {"rule": v["rule"], "world": "frag"}, lambda v: "frag %s %s" % (v["rule"], v["p"]))
 
+    # 7a. the SLAAC model: invariants, negative controls (the code before its two repairs), and its behaviours
+    #     replayed on the real interface
+    SINV = ["RsSchedule", "Sufficient", "NonSpinning", "Signalled", "SolSufficient"]
+    sc = {"MaxT": 12, "Lifetimes": "{0, 2, 5}", "Routers": '{"r1"}', "Prefixes": '{"p1"}', "MaxEvents": 6 if tier == "quick" else 7,
+          "DevMaintainOnly": False, "DevNoSyncDeadline": False}
+    rf = os.path.join(OUT, "sched", "c13.slaac.replay")
+    r = tlc("Slaac", write_cfg("Slaac_c13", cfg_text(sc, SINV + ["Export"], view="View")), workers=8, tag="c13.slaac", timeout=1500, tagged_file=rf)
+    if r.violated:
+        raise ToolError("Slaac model violates %s (log %s)" % (r.violated, r.log))
+    vd.add_model("Slaac MaxT=12 lifetimes {0,2,5} events<=%d" % sc["MaxEvents"], r, "SLAAC phases, prefix / route tables, maintenance-ingress-egress poll order, event loop sleeping until poll_at; invariants " + ",".join(SINV))
+    if tier == "thorough":
+        sc2 = dict(sc, Routers='{"r1", "r2"}', Prefixes='{"p1", "p2"}', MaxEvents=5, Lifetimes="{0, 3}", MaxT=9)
+        r2m = tlc("Slaac", write_cfg("Slaac_c13b", cfg_text(sc2, SINV, view="View")), workers=8, tag="c13.slaac2", timeout=2400, collect=())
+        if r2m.violated:
+            raise ToolError("Slaac model (2 routers, 2 prefixes) violates %s (log %s)" % (r2m.violated, r2m.log))
+        vd.add_model("Slaac 2 routers 2 prefixes MaxT=9", r2m, "as above with two routers and two prefixes")
+    for dev, exp in (("DevMaintainOnly", "Sufficient"), ("DevNoSyncDeadline", "Sufficient")):
+        cn = dict(sc)
+        cn[dev] = True
+        rn = tlc("Slaac", write_cfg("Slaac_neg", cfg_text(cn, ["Sufficient"], view="View")), workers=4, tag="c13.slaac." + dev, timeout=600, collect=())
+        vd.cov["models"].append({"model": "Slaac negative control " + dev, "violated": rn.violated})
+        if rn.violated != exp:
+            raise ToolError("negative control %s: expected %s to fail, got %s" % (dev, exp, rn.violated))
+    beh = [json.loads(l)["v"] for l in open(rf)]
+    import random as _rnd
+    if tier == "quick" and len(beh) > 6000:
+        beh = _rnd.Random(sd).sample(beh, 6000)
+    stf = chunked_replay(exe, ["slaac-replay"], beh, "c13.slaacm", nchunks=8)
+    drift = compared = 0
+    for tf in stf:
+        for rr in split_runs(tf):
+            prev, prev_pa = 0, 0
+            for e in rr:
+                if e.get("ev") == "poll" and "model" in e:
+                    compared += 1
+                    m = e["model"]
+                    got = (any(o.get("k") == "rs" for o in e["out"]), sorted(a for a in e["addrs"] if a != 0), sorted(e["rts"]))
+                    # a poll the model's loop made because its deadline came: the real deadline is that instant too
+                    # (the deadline announced after the previous poll; one at or before that poll means "at once")
+                    woke = e["kind"] != "due" or (prev_pa != -1 and max(prev_pa, prev) == e["now"])
+                    if got != (bool(m["rs"]), m["addrs"], m["rts"]) or not woke:
+                        drift += 1
+                    prev, prev_pa = e["now"], e["pa"]
+    vd.cov["model_drift"] = drift
+    vd.cov["drift_detail"] = {"slaac_polls_vs_Slaac_model": {"compared": compared, "different": drift}}
+    res7a = validate_traces("SlaacTrace", stf, parallel=8)
+    vd.add_validation(res7a)
+    report_viols(vd, "C13", res7a, {"world": "slaac_model", "seed": sd}, lambda v: {"rule": v["rule"], "world": "slaac_model"}, lambda v: "slaac(model) %s %s" % (v["rule"], v["p"]))
+    # 7. SLAAC with talking routers: solicitation schedule, prefix and router lifetimes, withdrawals, advertisements
+    #    that must be ignored; besides Q1 / Q2 the sufficiency rules R1..R3 of SlaacTrace
+    sfz = []
+    for k in range(3 if tier == "quick" else 8):
+        tf = os.path.join(OUT, "traces", "c13.slaac.%d.ndjson" % k)
+        run_harness(exe, ["slaac-random", "--seed", sd * 100 + 90 + k, "--runs", 300 if tier == "quick" else 1500, "--out", tf])
+        sfz.append(tf)
+    res7 = validate_traces("SlaacTrace", sfz, parallel=8)
+    vd.add_validation(res7)
+    report_viols(vd, "C13", res7, {"world": "slaac", "seed": sd}, lambda v: {"rule": v["rule"], "world": "slaac", "kind": v["p"][0] if v["p"] and isinstance(v["p"][0], str) else None},
+                 lambda v: "slaac %s %s" % (v["rule"], v["p"]))
+    for need in ("R1", "R2", "R3", "Q1", "Q2"):
+        if not res7["hits"].get(need):
+            raise ToolError("slaac world: rule %s was never exercised" % need)
+    vd.cov["samples"].append({"kind": "slaac world: router advertisements (ra) and the polls that deliver them, addresses / default routes held after each poll", "events": split_runs(sfz[0])[0][:10]})
+
     def mut(e):
         if e.get("ev") == "poll" and e.get("kind") == "probe" and not e.get("out"):
             e["out"] = [{"et": "ip4", "proto": 6, "ty": -1, "len": 54}]
@@ -125,6 +189,16 @@ def replay(obj, vd):
         res = dict(res)
         res["viol"] = [v for v in res["viol"] if v["rule"] in ("Q1", "Q2", "PANIC")]
         report_viols(vd, "C13", res, obj["ctx"], lambda v: {"rule": v["rule"], "world": "frag"})
+        vd.add_model("replay only", FakeTlc())
+    elif w == "slaac":
+        run_harness(exe, ["slaac-random", "--seed", ev0["seed"], "--runs", ev0["run"] + 1, "--out", tf])
+        runs = split_runs(tf)
+        with open(tf, "w") as f:
+            for e in runs[ev0["run"]]:
+                f.write(json.dumps(e) + "\n")
+        res = validate_traces("SlaacTrace", [tf], parallel=1)
+        vd.add_validation(res)
+        report_viols(vd, "C13", res, obj["ctx"], lambda v: {"rule": v["rule"], "world": "slaac"})
         vd.add_model("replay only", FakeTlc())
     elif w == "dns":
         run_harness(exe, ["dns-random", "--seed", ev0["seed"], "--runs", ev0["run"] + 1, "--servers", ev0["cfg"]["servers"], "--out", tf])
